@@ -19,6 +19,14 @@ SHAPES = {
     # A declares a directory as its output; B's protected output, the endpoint C's output and a stray file live inside it
     "dir-output": [("A", ["src"], ["work"]), ("B", ["src"], ["work/b"]), ("C", ["work/b"], ["work/c"])],
     "chain2+sink": [("A", ["src"], ["a"]), ("B", ["a"], ["b"]), ("N", ["b"], [])],
+    # a shortcut edge (T needs R directly and through M) with names such that the middle target sorts before the root
+    "tri-rev": [("R", ["src"], ["r"]), ("M", ["r"], ["m"]), ("T", ["r", "m"], ["t"])],
+    # an intermediate file whose name is in decomposed (NFD) form: the job creates exactly that name
+    "chain2u": [("A", ["src"], ["cafe\u0301.txt"]), ("B", ["cafe\u0301.txt"], ["b"])],
+    # B writes two files, the name of one being a string prefix of the other
+    "chain3x": [("A", ["src"], ["a"]), ("B", ["a"], ["b", "b.idx"]), ("C", ["b"], ["c"])],
+    # names that differ only where one has a dot
+    "dotted": [("A.x", ["src"], ["a"]), ("A_x", ["src"], ["b"]), ("Axx", ["a"], ["c"])],
 }
 SOURCES = ["src", "src2"]
 
